@@ -1593,5 +1593,12 @@ FINDINGS = {
     'D35': lambda c: c.get('kind') == 'pm_float_read',
 }
 
+
+def extra_obligations(work):
+    # T-int: the part of the model that is re-translated from the current source
+    import translate_int
+    return translate_int.obligations(work, translate_int.FOR['C19'])
+
+
 if __name__ == '__main__':
     sys.exit(common.main(sys.modules[__name__]))
